@@ -20,6 +20,8 @@ ASSUMPTIONS = [
 ]
 SPEC = {
     'quick': [('lasso', 'K5', 'pairs2', 2, 60),
+              ('K23', 'liq', 4),
+              ('K27', 'small', 3),
               ('K0p', 'small', 3),
               ('K1', 'ar', 7),
               ('K0', 'std', 3),
